@@ -255,6 +255,38 @@ class Run:
 
 
 # ----------------------------------------------------------------------
+def crosscheck_cvc5(samples, timeout_s=30):
+    """Second opinion: run SMT-LIB2 texts of discharged obligations through
+    the cvc5 binary.  Returns list of dict(label, z3='unsat', cvc5=...)."""
+    import subprocess
+    import tempfile
+    import shutil
+    exe = shutil.which('cvc5')
+    out = []
+    if not exe:
+        return [dict(label='-', z3='-', cvc5='cvc5 binary not found')]
+    d = tempfile.mkdtemp(prefix='cvc5x_')
+    try:
+        for k, (label, text) in enumerate(samples):
+            fn = os.path.join(d, f"q{k}.smt2")
+            with open(fn, 'w') as f:
+                f.write("(set-logic ALL)\n"+text)
+            try:
+                r = subprocess.run([exe, f"--tlimit={timeout_s*1000}", fn],
+                                   capture_output=True, text=True,
+                                   timeout=timeout_s+10)
+                ans = (r.stdout.strip().splitlines() or ['?'])[0]
+                if '(error' in r.stdout or r.returncode not in (0, 1) and \
+                        ans not in ('sat', 'unsat', 'unknown'):
+                    ans = 'inconclusive: '+(r.stdout+r.stderr)[:120]
+            except subprocess.TimeoutExpired:
+                ans = 'timeout'
+            out.append(dict(label=label, z3='unsat', cvc5=ans))
+    finally:
+        shutil.rmtree(d, ignore_errors=True)
+    return out
+
+
 def _call(args):
     fn, case = args
     t0 = time.time()
